@@ -378,3 +378,70 @@ Section WithCodec.
 
 End WithCodec.
 
+
+(* ---------- concurrent bulks: the locked unit of ActiveWriter.Write ----------
+
+   ActiveWriter.Write holds a mutex around "reserve a docs offset and write the docs block,
+   then reserve a meta offset and write the meta block that describes it". Each FileWriter
+   reserves its own offsets atomically, so without the mutex every single write would still be
+   fine — but the ORDER of the meta blocks could differ from the order of the docs blocks, and
+   Replay derives docs offsets by summing Ext1 in meta order.
+
+   Event level: a bulk consists of two events; a history of concurrent bulks is an interleaving
+   of events. With the mutex only interleavings of whole units (`locked`) occur, and these are
+   exactly sequences of the atomic step `do_bulk` (HBulk) of the history model above (theorem
+   C01_locked_units_sequential). fsyncs are left out here: they do not move offsets. *)
+
+Definition hdr_ext2 (h : list N) : N := le_dec (firstn 8 (skipn 25 h)).
+
+Inductive ev := EvDocs (i : nat) | EvMeta (i : nat).      (* i = index of the bulk in the group *)
+
+Record wst := WSt { w_docs : file; w_meta : file; w_offd : nat; w_offm : nat;
+                    w_pend : list (nat * nat) }.          (* bulk -> docs offset it reserved *)
+
+Definition no_bulk := Bulk [] [] 0 [] 0.
+
+Definition ev_step (cbs : list bulk) (w : wst) (e : ev) : wst :=
+  match e with
+  | EvDocs i =>
+      let b := nth i cbs no_bulk in
+      WSt (write_at (w_docs w) (w_offd w) (dblock b)) (w_meta w)
+          (w_offd w + length (dblock b)) (w_offm w) ((i, w_offd w) :: w_pend w)
+  | EvMeta i =>
+      match find (fun x => Nat.eqb (fst x) i) (w_pend w) with
+      | Some x =>
+          let b := nth i cbs no_bulk in
+          WSt (w_docs w) (write_at (w_meta w) (w_offm w) (mblock b (snd x)))
+              (w_offd w) (w_offm w + length (mblock b (snd x))) (w_pend w)
+      | None => w
+      end
+  end.
+
+Definition run_events (cbs : list bulk) (w : wst) (evs : list ev) : wst :=
+  fold_left (ev_step cbs) evs w.
+
+(* the interleavings the mutex allows: whole units, in lock-acquisition order *)
+Definition locked (order : list nat) : list ev := flat_map (fun i => [EvDocs i; EvMeta i]) order.
+
+(* ---------- the invariant Replay relies on, as a checkable statement ----------
+   "the i-th meta block (in file order) describes the docs block that starts at the sum of the
+   Ext1 of the blocks before it": (Ext1, Ext2) of every complete meta block, in file order ... *)
+Fixpoint meta_exts_loop (fuel : nat) (mf : file) (mpos : nat) : list (N * N) :=
+  match fuel with
+  | 0 => []
+  | S fuel' =>
+      match read_doc_block mf mpos with
+      | RdEOF => []
+      | RdOk blk => (hdr_ext1 blk, hdr_ext2 blk) :: meta_exts_loop fuel' mf (mpos + length blk)
+      end
+  end.
+Definition meta_exts (mf : file) : list (N * N) := meta_exts_loop (S (length mf)) mf 0.
+
+(* ... each recorded docs offset equals the running sum *)
+Fixpoint ext_chain_ok (l : list (N * N)) (sum : N) : bool :=
+  match l with
+  | [] => true
+  | (e1, e2) :: r => (e2 =? sum)%N && ext_chain_ok r (sum + e1)
+  end.
+
+Definition meta_describes_docs (mf : file) : bool := ext_chain_ok (meta_exts mf) 0.
